@@ -1,5 +1,5 @@
 use crate::distributions::*;
-use crate::functions::beta;
+use crate::functions::ln_gamma;
 
 /// Implements the [Beta](https://en.wikipedia.org/wiki/Beta_distribution) distribution.
 #[derive(Debug, Clone, Copy)]
@@ -91,7 +91,11 @@ impl Continuous for Beta {
         if !(0. ..=1.).contains(&x) {
             return 0.;
         }
-        x.powf(self.alpha - 1.) * (1. - x).powf(self.beta - 1.) / beta(self.alpha, self.beta)
+        // evaluated in log space: beta(a, b) underflows to 0 once a + b exceeds about 171
+        (xlogy(self.alpha - 1., x) + xlogy(self.beta - 1., 1. - x) + ln_gamma(self.alpha + self.beta)
+            - ln_gamma(self.alpha)
+            - ln_gamma(self.beta))
+        .exp()
     }
 }
 
